@@ -32,6 +32,10 @@ def run(chk: Check, tier: str):
             elif i % 4 == 3:
                 cli += ("--verif-unknown", str(i))
             items.append(Item(prog, inputs, cli=cli))
+    # the hand-written corner programs of harness/probes.py (coverage direction only)
+    from harness import probes
+
+    items += probes.c01_probes()
     ncov = 0
     for i in range(0, len(items), 100):
         outs = run_items(items[i : i + 100], chk)
